@@ -70,7 +70,7 @@ func c08RefsExcept(ms *memstore.Store) string {
 	return strings.Join(names, ";")
 }
 
-func c08Judge(fullB bool) func(sc *e1Scenario, h *hist.Hist, cps map[string][]int, col *evid.Collector) map[string][]int {
+func c08Judge(fullB, twice bool) func(sc *e1Scenario, h *hist.Hist, cps map[string][]int, col *evid.Collector) map[string][]int {
 	return func(sc *e1Scenario, h *hist.Hist, cps map[string][]int, col *evid.Collector) map[string][]int {
 		n := len(h.A.Entries)
 		type mr struct{ mode, ref string }
@@ -221,6 +221,48 @@ func c08Judge(fullB bool) func(sc *e1Scenario, h *hist.Hist, cps map[string][]in
 					c08Run(a, adv.mode, adv.ref, nil)
 					col.Inc("evaluations")
 					cref2 := a.Refs[cache.Ref]
+					if twice {
+						// ... and advanced again by every verification at every
+						// later length j2 >= j; judged below as cref3
+						for j2 := j; j2 <= n; j2++ {
+							for _, adv2 := range pairs {
+								if (&refver.History{Entries: h.A.Entries[:j2], Obj: h.A.Obj}).LastIndex(adv2.ref) < 0 {
+									continue
+								}
+								a2 := h.Snaps[j2-1].Snapshot()
+								a2.Refs[cache.Ref] = cref2
+								rsl.ResetCacheForVerif()
+								c08Run(a2, adv2.mode, adv2.ref, nil)
+								col.Inc("evaluations")
+								cref3 := a2.Refs[cache.Ref]
+								for _, p := range pairs {
+									f := h.MS.Snapshot()
+									f.Refs[cache.Ref] = cref3
+									rsl.ResetCacheForVerif()
+									complete := indexComplete(f) && indexComplete(a) && indexComplete(a2)
+									got := c08Run(f, p.mode, p.ref, nil)
+									col.Inc("evaluations")
+									col.Inc("twice_advanced_cache_verifications")
+									if c08Same(got, base[p]) {
+										continue
+									}
+									cfg := fmt.Sprintf("cache populated at %d, advanced by %s(%s) at %d and by %s(%s) at %d, log length %d", k, adv.mode, adv.ref, j, adv2.mode, adv2.ref, j2, n)
+									if !complete {
+										col.Violation("C08:verdict-differs-with-cache:index-missing-policy-or-attestation-entries-of-the-log",
+											fmt.Sprintf("[%s] %s(%s) with a %s = %s, without cache = %s", h.Describe(), p.mode, p.ref, cfg, got, base[p]),
+											e1Replay{Scenario: sc.Name, Events: h.Events, Mode: p.mode, Ref: p.ref})
+									} else if (adv.mode == "latest" || adv2.mode == "latest") && p.mode == "full" && got.ok && !base[p].ok {
+										col.Violation("C08:latest-only-verification-marks-its-entry-last-verified:full-verification-then-skips-earlier-entries",
+											fmt.Sprintf("[%s] full(%s) with a %s = %s, without cache = %s", h.Describe(), p.ref, cfg, got, base[p]),
+											e1Replay{Scenario: sc.Name, Events: h.Events, Mode: p.mode, Ref: p.ref})
+									} else {
+										report("verdict-differs-with-cache:cache-advanced-twice:index-complete", cfg, p, got, base[p])
+									}
+								}
+							}
+						}
+						continue
+					}
 					for _, p := range pairs {
 						f := h.MS.Snapshot()
 						f.Refs[cache.Ref] = cref2
@@ -294,9 +336,14 @@ func c08Scenarios(thorough bool) []*e1Scenario {
 		dFull, dA = 3, 4
 	}
 	prefix := []hist.Event{{Kind: "policy", Policy: 0}, {Kind: "push", Ref: refMain, Commit: "c0", Signer: "P0"}}
+	dTwice := 2
+	if thorough {
+		dTwice = 3
+	}
 	return []*e1Scenario{
-		{Name: "C08/advanced-caches", World: c08World, Policies: c08Policies(), Prefix: prefix, Menu: c08Menu, Depth: dFull, Refs: []string{refMain, refFeat, refTag}, Judge: c08Judge(true)},
-		{Name: "C08/populated-caches", World: c08World, Policies: c08Policies(), Prefix: prefix, Menu: c08Menu, Depth: dA, Refs: []string{refMain, refFeat, refTag}, Judge: c08Judge(false)},
+		{Name: "C08/twice-advanced-caches", World: c08World, Policies: c08Policies(), Prefix: prefix, Menu: c08Menu, Depth: dTwice, Refs: []string{refMain, refFeat, refTag}, Judge: c08Judge(true, true)},
+		{Name: "C08/advanced-caches", World: c08World, Policies: c08Policies(), Prefix: prefix, Menu: c08Menu, Depth: dFull, Refs: []string{refMain, refFeat, refTag}, Judge: c08Judge(true, false)},
+		{Name: "C08/populated-caches", World: c08World, Policies: c08Policies(), Prefix: prefix, Menu: c08Menu, Depth: dA, Refs: []string{refMain, refFeat, refTag}, Judge: c08Judge(false, false)},
 	}
 }
 
@@ -308,9 +355,10 @@ func TestC08(t *testing.T) {
 		}
 	}()
 	scs := c08Scenarios(evid.Thorough())
-	col.Bound("events_after_prefix_populated", scs[1].Depth)
-	col.Bound("events_after_prefix_advanced", scs[0].Depth)
-	col.Rule("every history of <= %d events (cache advanced by an earlier verification: <= %d) after [policy; push] over {pushes to main by authorised / later de-authorised / unknown keys, push to an unprotected ref, two recordings of a tag under a threshold-2 rule, approvals, three policy states (incl. de-authorisation and threshold raise), skip annotations}; principals share no keys. For every history: cache-less first-time verdict (full, latest-only) for every reference = baseline; then the same under (a) repetition / other references first on one store, (b) a cache populated at EVERY earlier log length k and carried forward untouched, (c) that cache advanced by every single earlier verification (mode x ref x length j>=k), (d) VerifyRefFromEntry from every entry reached by an earlier successful full verification vs full; and the ref listing before/after. No expected values are written: every comparison is between two runs of the real code. A class is (configuration, mode, with-cache verdict, baseline verdict)", scs[1].Depth, scs[0].Depth)
+	col.Bound("events_after_prefix_populated", scs[2].Depth)
+	col.Bound("events_after_prefix_advanced", scs[1].Depth)
+	col.Bound("events_after_prefix_advanced_twice", scs[0].Depth)
+	col.Rule("every history of <= %d events (cache advanced by an earlier verification: <= %d) after [policy; push] over {pushes to main by authorised / later de-authorised / unknown keys, push to an unprotected ref, two recordings of a tag under a threshold-2 rule, approvals, three policy states (incl. de-authorisation and threshold raise), skip annotations}; principals share no keys. For every history: cache-less first-time verdict (full, latest-only) for every reference = baseline; then the same under (a) repetition / other references first on one store, (b) a cache populated at EVERY earlier log length k and carried forward untouched, (c) that cache advanced by every single earlier verification (mode x ref x length j>=k), (c') histories of <= %d events: that cache advanced by every ordered PAIR of earlier verifications (at lengths k <= j <= j2), (d) VerifyRefFromEntry from every entry reached by an earlier successful full verification vs full; and the ref listing before/after. No expected values are written: every comparison is between two runs of the real code. A class is (configuration, mode, with-cache verdict, baseline verdict)", scs[2].Depth, scs[1].Depth, scs[0].Depth)
 	col.Assume("principals share no keys (as quantified); the process-wide rsl entry cache is reset before every compared run")
 	for _, sc := range scs {
 		sc.keepSnaps = true
